@@ -40,7 +40,7 @@ RULE = ('paths: every sequence of 0..n segments (n = 3 quick / 4 thorough) over 
         'b.txt, %2e%2e, %252e%252e, ..%2f, %2e%2e%2f, ..\\, %5c.., secret.txt, docroot-extra, leak.txt, sp%20ace.txt, '
         '%2f-encoded absolute path of the secret} x mount (none, "/", "/static" with the segments after "/static/" and glued to '
         '"/static") x dirlisting x front end (HTTP bytes, direct request event, WSGI application); ranges: unit {bytes=, items=, '
-        'no "="} x one or two specs "a-b" with a, b in {empty, 0, 1, 5, 9, 10, 11, 100, x, -1} x file size {0, 1, 10, 100} x front end '
+        'no "="} x one or two specs "a-b" with a, b in {empty, 0, 1, 5, 9, 10, 11, 100, x, -1} x file size {0, 1, 10, 100} x front end; positions of 19 to 6000 digits (first, last, suffix, reversed, in a list) '
         '(quick: two-spec headers only with unit bytes on the 10-byte file through HTTP; glued mount, mount "/" and dirlisting off with one '
         'segment less); '
         'each element executed once on fresh HTTP/Static/Dispatcher objects driven by tick(); a case is non-trivial when its path '
@@ -72,6 +72,8 @@ RANGE_BIG_SPECS = ('100-5099', '0-4095', '0-4096', '4095-8192', '4096-8191', '1-
                    '0-0', '19999-19999', '0-4095,8192-12287', '100-5099,15000-')
 RANGE_VALUES = ('', '0', '1', '5', '9', '10', '11', '100', 'x', '-1')
 RANGE_UNITS = ('bytes=', 'items=', '')
+# positions far beyond any file (and beyond what int() converts without complaint: 4300 digits)
+RANGE_HUGE = tuple('9' * n for n in (19, 40, 400, 4300, 4301, 6000))
 
 
 # ---------------------------------------------------------------------------------------------
@@ -695,6 +697,11 @@ def range_cases(tier):
     for s in RANGE_BIG_SPECS:
         for fe in FRONTENDS:
             yield fe, '1.1', RANGE_BIG, 'bytes=' + s
+    for h in RANGE_HUGE:
+        for s in ('0-' + h, '5-' + h, h + '-', '-' + h, h + '-5', h + '-' + h, '0-1,5-' + h, '-' + h + ',2-3'):
+            for size in (0, 10):
+                for fe in FRONTENDS:
+                    yield fe, '1.1', size, 'bytes=' + s
     # HTTP/1.0 knows no ranges: the header is ignored or honoured correctly, same oracle
     for size in RANGE_SIZES:
         for s in specs:
@@ -707,6 +714,13 @@ def range_cases(tier):
 
 
 _SPEC = re.compile(r'^(?:(\d+)-(\d*)|-(\d+))$')
+
+
+def _num(digits):
+    """value of a position for comparisons with file sizes and with each other; written without int() of an unbounded digit
+    string (Python refuses more than 4300 digits): anything above 30 digits is 'huge', ordered by its length"""
+    t = digits.lstrip('0') or '0'
+    return int(t) if len(t) <= 30 else 10 ** 30 + len(t)
 
 
 def reference_ranges(value, size):
@@ -724,12 +738,12 @@ def reference_ranges(value, size):
         if not m:
             return 'malformed-spec', []
         if m.group(3) is not None:
-            n = int(m.group(3))
+            n = _num(m.group(3))
             if n > 0 and size > 0:
                 out.append((max(0, size - n), size - 1))
         else:
-            first = int(m.group(1))
-            last = int(m.group(2)) if m.group(2) else None
+            first = _num(m.group(1))
+            last = _num(m.group(2)) if m.group(2) else None
             if last is not None and last < first:
                 return 'reversed', []
             if first < size:
@@ -757,11 +771,11 @@ def spec_class(value, size):
     for spec in rest.split(','):
         m = _SPEC.match(spec.strip())
         if m.group(3) is not None:
-            n = int(m.group(3))
+            n = _num(m.group(3))
             tags.add('suffix-of-zero-bytes' if n == 0 else 'suffix-longer-than-the-file' if n > size else 'suffix')
         else:
-            first = int(m.group(1))
-            last = int(m.group(2)) if m.group(2) else None
+            first = _num(m.group(1))
+            last = _num(m.group(2)) if m.group(2) else None
             if first >= size:
                 tags.add('first-position-beyond-the-end')
             elif last is not None and last >= size:
